@@ -3,13 +3,14 @@ PROPS = {}
 
 PROPS["C14"] = dict(
     title="Field-path operations on YAML nodes obey get/set laws",
-    modules=["Kust.Props.C14", "Kust.Lemmas.Path"],
+    modules=["Kust.Props.C14", "Kust.Props.C14b", "Kust.Lemmas.Path"],
     theorems=[
         "Kust.C14.setfield_get", "Kust.C14.setfield_frame", "Kust.C14.setfield_idem",
         "Kust.C14.clear_absent_noop", "Kust.C14.clear_frame", "Kust.Fns.pathGet_nocreate_doc",
-        "Kust.C14.create_then_lookup",
+        "Kust.C14.create_then_lookup", "Kust.C14.match_nocreate_doc", "Kust.C14.match_denotes", "Kust.C14.denote_resolves",
+        "Kust.C14.match_positions_resolve",
     ],
-    components=["fns.lookup", "fns.lookup2", "fns.setfield", "fns.clear", "fns.setelem", "fieldspec.apply"],
+    components=["fns.lookup", "fns.lookup2", "fns.setfield", "fns.clear", "fns.setelem", "fieldspec.apply", "match.path"],
     oracle=False,
     n_corr={"quick": 3000, "thorough": 40000},
     technique="Lean 4 proof of get/set laws on a transliterated model of kyaml fns.go + differential correspondence (Go vs compiled Lean driver)",
@@ -19,7 +20,10 @@ PROPS["C14"] = dict(
     level_note="Trusted: Lean kernel; correspondence harness and its generators (bounded depth, small alphabets); "
                "yaml.IsValueNonString is a parameter of the theorems (its graph is sampled from the real library per case).",
     assumptions=["IsValueNonString (YAML 1.1 reader) is an uninterpreted parameter `ns`",
-                 "null receivers of creating element matchers are outside the tree model (class 'unmodelled', counted)"],
+                 "null receivers of creating element matchers are outside the tree model (class 'unmodelled', counted)",
+                 "PathMatcher: the regular-expression test on the serialised scalar is a parameter `hit` of the theorems; the executable model "
+                 "instantiates it for literal patterns (substring containment), other patterns are counted 'unmodelled'; an empty path part with "
+                 "creation (walk continues in a detached node) is outside the tree model"],
     design_ref="DESIGN.md §5 C14",
 )
 
@@ -223,7 +227,7 @@ PROPS["C10"] = dict(
               "Kust.C10.unselected_untouched", "Kust.C10.unnamed_field_untouched", "Kust.C10.target_frame", "Kust.C10.target_writes",
               "Kust.C10.literal_copied_verbatim", "Kust.C10.source_unique_and_current", "Kust.C10.last_sees_predecessors",
               "Kust.C10.target_pieces_exact", "Kust.C10.source_piece", "Kust.C10.setPieces_replace"],
-    components=["image.update", "image.split", "repl.apply"],
+    components=["image.update", "image.split", "repl.apply", "match.path"],
     oracle=True,
     n_corr={"quick": 4000, "thorough": 40000}, n_oracle={"quick": 1200, "thorough": 15000},
     technique="Lean 4 proof (image reference matching is literal-prefix + tag/digest grammar: exact characterisation, never a longer or shorter name; replacement filter on scalar fields: frame, verbatim copy, unique current source, strict sequencing, delimiter/index piece laws) + Go/Lean correspondence of the imagetag filter, Split and the replacement filter (lists of chained replacements) + near-miss selection oracle for patch targets, images, replicas and replacements on whole builds",
